@@ -85,6 +85,7 @@ func Main(args []string) int {
 			return 2
 		}
 		re := regexp.MustCompile(args[2])
+		InstallDerivedLemmas(P, db)
 		for _, k := range db.SortedKeys() {
 			if sp := db.Funcs[k]; sp.IsC && re.MatchString(k) {
 				r := GenCFunc(P, db, strings.TrimPrefix(k, "C."), sp)
@@ -143,6 +144,7 @@ func cmdVerify(args []string) int {
 		fmt.Fprintln(os.Stderr, err)
 		return 2
 	}
+	InstallDerivedLemmas(P, db)
 	var rs []*FuncResult
 	for _, k := range P.SortedFuncKeys() {
 		if !re.MatchString(k) {
@@ -186,6 +188,8 @@ func cmdVerify(args []string) int {
 	}
 	if fs.Arg(0) == "lemmas" {
 		rs = LemmaObligations("")
+	} else {
+		rs = append(rs, LemmaObligationsFor("-", rs)...)
 	}
 	dir := *keep
 	if dir == "" {
